@@ -118,6 +118,14 @@ Proof.
   apply K. unfold nx_remove_node. now apply EDist_filter_edges.
 Qed.
 
+Lemma EDist_strip u G : EDist G -> EDist (strip_contraction u G).
+Proof.
+  unfold EDist, strip_contraction. cbn [ge]. rewrite map_map.
+  assert (E : map (fun x => fst (strip_edge u x)) (ge G) = map fst (ge G)).
+  { apply map_ext. intros [[p q] d]. unfold strip_edge. now destruct (edge_touches u (p, q, d)). }
+  now rewrite E.
+Qed.
+
 Theorem EDist_step s o : EDist (sg s) -> EDist (sg (fst (sstep s o))).
 Proof.
   intro H.
@@ -161,7 +169,7 @@ Proof.
   - unfold s_merge. destruct (N.eqb g g2); [exact H|]. destruct (negb (pg_graph_exists (sg s) g2)); [exact H|].
     destruct (find_node (sg s) g n) as [u|]; [|exact H]. destruct (find_node (sg s) g2 n) as [v|]; [|exact H].
     destruct (nx_node (sg s) u); [|exact H]. destruct (nx_node (sg s) v); [|exact H].
-    destruct pol as [pp|]; cbn [fst]; [destruct (merge_props _ _ _ _); cbn [fst]|]; apply Kset; now apply EDist_contract.
+    destruct pol as [pp|]; cbn [fst]; [destruct (merge_props _ _ _ _); cbn [fst]|]; apply Kset; apply EDist_strip; now apply EDist_contract.
 Qed.
 
 Theorem EDist_run ops : forall s, EDist (sg s) -> EDist (sg (srun ops s)).
@@ -251,6 +259,12 @@ Proof.
   intros e He. apply filter_In in He. exact He.
 Qed.
 
+Lemma closed_strip u G : EClosed G -> EClosed (strip_contraction u G).
+Proof.
+  intros H a b q Hin. unfold strip_contraction in Hin. cbn [ge] in Hin. apply in_map_iff in Hin as [[[x y] d] [E Hin]].
+  unfold strip_edge in E. destruct (edge_touches u (x, y, d)); inversion E; subst; exact (H _ _ _ Hin).
+Qed.
+
 Theorem closed_step_all s o : SInv s -> wf_op o = true -> EClosed (sg s) -> EClosed (sg (fst (sstep s o))).
 Proof.
   intros HI Hwf H. pose proof HI as [Hnd Hlt].
@@ -279,8 +293,8 @@ Proof.
       destruct (find_node_sound (sg s) g n u Hnd Eu) as [p1 [A1 [A2 _]]].
       destruct (find_node_sound (sg s) g2 n u Hnd Ev) as [p2 [B1 [B2 _]]].
       rewrite A1 in B1. inversion B1; subst p2. apply Eg. eapply has_val_inj; eauto. }
-    assert (Hc : EClosed (contract (sg s) u v)).
-    { apply closed_contract; auto. eapply found_in_ids_G; eauto. }
+    assert (Hc : EClosed (strip_contraction u (contract (sg s) u v))).
+    { apply closed_strip. apply closed_contract; auto. eapply found_in_ids_G; eauto. }
     destruct pol as [pp|]; cbn [fst]; [destruct (merge_props _ _ _ _); cbn [fst]|]; now apply closed_set_node.
 Qed.
 
